@@ -906,6 +906,58 @@ def obligations_rounding(case):
     return obs
 
 
+def obligations_new(case):
+    """class instantiation, however maxsize is passed (positionally or by keyword): 0 -> the object decorates as no_cache,
+    None -> as inf_cache, otherwise the configured bound is recorded; the object is always initialised  [C05]"""
+    I = case.I
+    obs = []
+    fn = '%s.__new__' % case.qual
+    if case.policy in ('no', 'inf'):
+        return obs
+    variants = [('positional 0', [IntV(0)], {}, 'no_cache'), ('keyword 0', [], {'maxsize': IntV(0)}, 'no_cache'),
+                ('positional None', [NONE], {}, 'inf_cache'), ('keyword None', [], {'maxsize': NONE}, 'inf_cache'),
+                ('positional M', [IntV(case.M)], {}, case.clsname), ('keyword M', [], {'maxsize': IntV(case.M)}, case.clsname),
+                ('default', [], {}, case.clsname)]
+    for (label, pos, kw, want) in variants:
+        st = case.st_loaded.fork()
+        st.assume(case.M >= 1, IGN != NoneC)
+        cache_ref = kcache.new_cache(I, st, case.kcls)
+        kw2 = dict(kw)
+        kw2.update({'cache': cache_ref, 'keymap': case.keymap})
+        I.cur_func = fn
+        ok, why = False, ''
+        try:
+            res = I.call(st, case.cls, CallArgs(list(pos), kw2))
+            if len(res) != 1 or isinstance(res[0][1], Exc):
+                why = 'construction forks or raises: %r' % ([r for _, r in res],)
+            else:
+                s1, obj = res[0]
+                o = s1.get(obj) if isinstance(obj, Ref) else None
+                cls = getattr(o, 'cls', None)
+                state = o.attrs.get('__state__') if o is not None and hasattr(o, 'attrs') else None
+                items = dict(s1.get(state).items) if isinstance(state, Ref) and s1.get(state).kind == 'concdict' else None
+                if cls is None or cls.name != want:
+                    why = 'instance of %s' % (cls.name if cls else obj,)
+                elif items is None:
+                    why = 'object was not initialised (no __state__)'
+                else:
+                    ms = items.get('maxsize')
+                    if want == 'no_cache':
+                        ok = isinstance(ms, IntV) and ms.concrete() == 0
+                    elif want == 'inf_cache':
+                        ok = isinstance(ms, NoneV)
+                    elif label == 'default':
+                        ok = isinstance(ms, IntV) and (ms.concrete() or 0) >= 1
+                    else:
+                        ok = isinstance(ms, IntV) and z3.is_true(z3.simplify(ms.term == case.M))
+                    why = 'recorded maxsize is %r' % (ms,)
+        except Unsupported as e:
+            why = 'unsupported: %s' % e
+        obs.append(Obligation('%s/dispatch[%s]' % (fn, label), [], z3.BoolVal(bool(ok)), prop='C05', func=fn, path=label + ' | ' + why,
+                              info={'case': case.qual, 'op': 'new'}))
+    return obs
+
+
 def all_obligations(case):
     obs = []
     obs += case.obligations_call()
